@@ -87,6 +87,15 @@ var lprofiles = map[string]*lprofile{
 	"C18": {prop: "C18", qmax: 0, quickCases: 1500, thorCases: 20000},
 }
 
+// exhTier selects the exhaustive universes: the scan check uses a lighter set
+// in the thorough tier.
+func (p *lprofile) exhTier(tier string) string {
+	if p.prop == "C04" && tier == "thorough" {
+		return "thorough-light"
+	}
+	return tier
+}
+
 func (p *lprofile) usesExhaustive() bool {
 	switch p.prop {
 	case "C14", "C18":
@@ -138,7 +147,7 @@ func (p *lprofile) numCases(tier string) int {
 		n += 4
 	}
 	if p.usesExhaustive() {
-		n += exhNumChunks(tier)
+		n += exhNumChunks(p.exhTier(tier))
 	}
 	if tier == "thorough" {
 		return n + p.thorCases
@@ -184,9 +193,9 @@ func (p *lprofile) caseAt(ctx *Ctx, idx int) (*LCase, *ExhSpace, [][]int) {
 	}
 	idx -= numBig(ctx.Tier)
 	if p.usesExhaustive() {
-		nc := exhNumChunks(ctx.Tier)
+		nc := exhNumChunks(p.exhTier(ctx.Tier))
 		if idx < nc {
-			sp, subs := exhChunkAt(ctx.Tier, idx)
+			sp, subs := exhChunkAt(p.exhTier(ctx.Tier), idx)
 			return nil, sp, subs
 		}
 		idx -= nc
